@@ -36,6 +36,7 @@ class TLCResult:
     wall: float = 0.0
     raw: str = ""
     cmd: str = ""
+    cached: bool = False
 
     def summary(self):
         return dict(module=self.module, cfg=self.cfg, ok=self.ok, states=self.distinct,
@@ -54,8 +55,23 @@ def write_cfg(name: str, lines: list[str]) -> Path:
 def run(module: str, cfg_lines: list[str], name: str | None = None, workers: int | str = 1,
         simulate: str | None = None, depth: int | None = None, env: dict | None = None,
         timeout: int = 1800, coverage: bool = True, expect_violation: bool = False,
-        dfs: bool = False, seedarg: int | None = None) -> TLCResult:
+        dfs: bool = False, seedarg: int | None = None, cache: bool = False) -> TLCResult:
     name = name or module
+    cache_key = None
+    if cache and os.environ.get("VERIF_TLC_CACHE") == "1":  # developer convenience only; off in registered checks
+        import hashlib
+        h = hashlib.sha256()
+        for f in sorted(SPEC.glob("*.tla")):
+            h.update(f.read_bytes())
+        h.update("\n".join(cfg_lines).encode())
+        h.update(repr((module, simulate, depth, seedarg, sorted((env or {}).items()))).encode())
+        cache_key = WORK / "cache" / (h.hexdigest()[:32] + ".json")
+        if cache_key.exists():
+            d = json.loads(cache_key.read_text())
+            res = TLCResult(module=module, cfg=name)
+            res.__dict__.update(d)
+            res.cached = True
+            return res
     cfg = write_cfg(name, cfg_lines)
     meta = WORK / "meta" / f"{name}_{os.getpid()}"
     if meta.exists():
@@ -99,15 +115,22 @@ def run(module: str, cfg_lines: list[str], name: str | None = None, workers: int
             raise MachineryError(f"TLC exit {cp.returncode} on {module} ({name}):\n{tail}\n{cp.stderr[-2000:]}")
     if res.violated is not None:
         res.ok = False
-    if not res.ok and not expect_violation:
-        pass
+    if cache_key is not None and res.ok:
+        cache_key.parent.mkdir(parents=True, exist_ok=True)
+        d = dict(res.__dict__)
+        d["raw"] = ""
+        cache_key.write_text(json.dumps(d))
     return res
 
 
 def _parse(res: TLCResult, out: str):
     lines = out.splitlines()
+    seen_emit = set()
     for i, ln in enumerate(lines):
         if ln.startswith('<<"@@"'):
+            if ln in seen_emit:      # identical record (e.g. same edge reached with another ghost value)
+                continue
+            seen_emit.add(ln)
             m = _EMIT2.match(ln)
             if m:
                 try:
